@@ -17,6 +17,7 @@ CONSTANTS
    Scenario,      \* "single" : object 1 = empty circuit with nu \in NUs
                   \* "tmpl"   : object 1 = marked parent(PNu), 2 = marked template(3), 3 = marked template(2)
    NUs, PNu,
+   TNu,           \* "tmpl": <<modes of template object 2, modes of template object 3>>
    NObj,          \* object ids 1..NObj (unallocated ones are NullC)
    Numeric,       \* carry sem or not
    MaxLen,        \* bound on Len(prog)
@@ -62,8 +63,8 @@ InitCircs ==
    IF Scenario = "single" THEN { [o \in Objs |-> IF o = 1 THEN New(n) ELSE NullC] : n \in NUs }
    ELSE IF Scenario = "pair" THEN { [o \in Objs |-> IF o = 1 THEN New(PNu) ELSE IF o = 2 THEN New(2) ELSE NullC] }
    ELSE { [o \in Objs |-> IF o = 1 THEN [New(PNu) EXCEPT !.ops = ParentOps(PNu)]
-                          ELSE IF o = 2 THEN [New(3) EXCEPT !.ops = TemplateOps(3)]
-                          ELSE IF o = 3 THEN [New(2) EXCEPT !.ops = TemplateOps(2)]
+                          ELSE IF o = 2 THEN [New(TNu[1]) EXCEPT !.ops = TemplateOps(TNu[1])]
+                          ELSE IF o = 3 THEN [New(TNu[2]) EXCEPT !.ops = TemplateOps(TNu[2])]
                           ELSE NullC] }
 SemOrNone(c) == IF Numeric /\ c.nu >= 0 THEN Sem(c) ELSE <<>>
 \* with parameters the matrix is re-read from the op list with the CURRENT values (that is what "live" means);
